@@ -2,6 +2,7 @@ package props
 
 import (
 	"fmt"
+	"reflect"
 	"strings"
 
 	"github.com/llir/llvm/asm"
@@ -241,6 +242,45 @@ type c16case struct {
 
 // equalSafe calls Equal with panic capture (stack overflow on runaway recursion is fatal in Go and
 // is turned into a deterministic crash by the stack cap set in runC16).
+// c16nameBelow names every non-struct type strictly below the root of t.
+func c16nameBelow(t types.Type, root bool, k *int) {
+	if _, ok := t.(*types.StructType); ok {
+		if t.Name() != "" {
+			return
+		}
+	} else if !root {
+		*k++
+		c16setTypeName(t, fmt.Sprintf("inner%d", *k))
+	}
+	switch t := t.(type) {
+	case *types.PointerType:
+		c16nameBelow(t.ElemType, false, k)
+	case *types.VectorType:
+		c16nameBelow(t.ElemType, false, k)
+	case *types.ArrayType:
+		c16nameBelow(t.ElemType, false, k)
+	case *types.StructType:
+		for _, f := range t.Fields {
+			c16nameBelow(f, false, k)
+		}
+	case *types.FuncType:
+		c16nameBelow(t.RetType, false, k)
+		for _, f := range t.Params {
+			c16nameBelow(f, false, k)
+		}
+	}
+}
+
+// c16setTypeName sets the TypeName field of a non-struct type.
+func c16setTypeName(t types.Type, name string) {
+	if _, ok := t.(*types.StructType); ok {
+		return
+	}
+	if f := reflect.ValueOf(t).Elem().FieldByName("TypeName"); f.IsValid() && f.CanSet() {
+		f.SetString(name)
+	}
+}
+
 func equalSafe(t, u types.Type) (eq bool, p string) {
 	p = fw.Try(func() { eq = types.Equal(t, u) })
 	return
@@ -257,7 +297,7 @@ func runC16(c *fw.Check) {
 	for i, d := range ds {
 		canon[i] = d.canon()
 	}
-	c.Rule = fmt.Sprintf("type universe = all descriptors of constructor depth <=%d over {void,label,token,metadata,x86_mmx,i1,i8,i32,half,float,double, identified structs A,B} with pointers in 2 address spaces, fixed/scalable vectors of 2 lengths, arrays of 2 lengths, literal/packed structs and (variadic) function types of <=2 members; %d universes of bodies for A,B (opaque, plain, self-recursive, mutually recursive, same-body, recursion through function/array). For each universe two independent instance sets X,Y are built and Equal is evaluated on ALL ordered pairs X[i],Y[j] and X[i],X[j] against the descriptor identity (reflexive/symmetric/transitive follow from agreeing with an equivalence on all pairs); each type is printed in a module, re-parsed, and the parsed type compared with ALL types. distinct = ordered pairs.", depth, c16universes)
+	c.Rule = fmt.Sprintf("type universe = all descriptors of constructor depth <=%d over {void,label,token,metadata,x86_mmx,i1,i8,i32,half,float,double, identified structs A,B} with pointers in 2 address spaces, fixed/scalable vectors of 2 lengths, arrays of 2 lengths, literal/packed structs and (variadic) function types of <=2 members; %d universes of bodies for A,B (opaque, plain, self-recursive, mutually recursive, same-body, recursion through function/array). For each universe two independent instance sets X,Y are built and Equal is evaluated on ALL ordered pairs X[i],Y[j] and X[i],X[j] against the descriptor identity (reflexive/symmetric/transitive follow from agreeing with an equivalence on all pairs); in the first universe also against instance sets whose non-struct types all carry the same type name, and pairwise different names (only structs are identified by name); each type is printed in a module, re-parsed, and the parsed type compared with ALL types. distinct = ordered pairs.", depth, c16universes)
 	c.Extra["types"] = n
 	for u := 0; u < c16universes; u++ {
 		envX, envY := c16env(u), c16env(u)
@@ -266,6 +306,13 @@ func runC16(c *fw.Check) {
 			X[i], Y[i] = d.build(envX), d.build(envY)
 		}
 		check := func(u int, A, B []types.Type, tag string) {
+			suffix := ""
+			if strings.Contains(tag, "named") {
+				suffix = "/type-aliases"
+			}
+			if strings.Contains(tag, "below the root") {
+				suffix = "/nested-type-aliases"
+			}
 			fw.ParallelFor(n, func(i int) {
 				for j := 0; j < n; j++ {
 					want := canon[i] == canon[j]
@@ -279,7 +326,7 @@ func runC16(c *fw.Check) {
 						if want {
 							kind = "separates"
 						}
-						c.Violation("equal/"+kind+"/"+ds[i].K+"-"+ds[j].K, c16case{Universe: u, T: canon[i], U: canon[j], Got: fmt.Sprint(got), What: tag + ": Equal disagrees with structural identity"})
+						c.Violation("equal/"+kind+"/"+ds[i].K+"-"+ds[j].K+suffix, c16case{Universe: u, T: canon[i], U: canon[j], Got: fmt.Sprint(got), What: tag + ": Equal disagrees with structural identity"})
 					}
 					// method form as well
 					if got2 := A[i].Equal(B[j]); got2 != got {
@@ -291,6 +338,33 @@ func runC16(c *fw.Check) {
 		}
 		check(u, X, Y, "X-Y")
 		check(u, X, X, "X-X")
+		if u == 0 {
+			// non-struct types that carry a type NAME (aliases such as `%cb = type void (i32)`)
+			// are identified by structure all the same: one instance set in which every
+			// non-struct type has the SAME name, one in which all names differ.
+			envZ, envW := c16env(u), c16env(u)
+			Z, W := make([]types.Type, n), make([]types.Type, n)
+			for i, d := range ds {
+				Z[i], W[i] = d.build(envZ), d.build(envW)
+				if d.K != "named" {
+					c16setTypeName(Z[i], "alias")
+					c16setTypeName(W[i], fmt.Sprintf("alias%d", i))
+				}
+			}
+			// every non-struct type BELOW the root named (an alias used as element, field,
+			// parameter or pointee is still the type it stands for).
+			envV := c16env(u)
+			V := make([]types.Type, n)
+			for i, d := range ds {
+				V[i] = d.build(envV)
+				k := 0
+				c16nameBelow(V[i], true, &k)
+			}
+			check(u, X, V, "X vs named non-struct types below the root")
+			check(u, X, Z, "X vs same-named non-struct types")
+			check(u, Z, Z, "same-named non-struct types")
+			check(u, Z, W, "same-named vs differently named non-struct types")
+		}
 		// print -> parse -> Equal.
 		c16roundtrip(c, u, ds, canon, X, envX)
 	}
